@@ -544,9 +544,35 @@ def _run_ops(ops):
             pos = np.where(pos)[0]
         return "ok " + _tuples(zip(pos.tolist(), np.asarray(kmers).tolist()))
 
+    def unsafe(w):
+        """ops of the memory-unsafe known-finding classes must never run inside a multi-op case (they have their own
+        single-purpose forked children: kinds probe / npk / ctor-reject): refuse to execute them here"""
+        c_ = w[0]
+        code_args = {"get": [2], "has": [2], "count": [2], "matchsel": [2, 3], "kms": [3], "sel": [3, 4],
+                     "split": [1], "decode": [1], "simk": [1]}.get(c_, [])
+        for i_ in code_args:
+            if i_ < len(w) and any(tok.startswith("-") and tok[1:].isdigit() for tok in w[i_].replace(";", ",").split(",")):
+                return True                 # negative k-mer codes / positions
+        if c_ in ("seqs", "seqsx", "match", "matchq", "matchsim", "mask") and st.get("sp"):
+            need = (st["k"] - 1) + max(st["sp"]) + 1
+            if c_ == "mask":
+                return len(w[1]) < need
+            span_ = max(st["sp"]) + 1
+            if c_ in ("seqs", "seqsx") and w[4] != "-":
+                if any(len(_parse_nats(x)) < span_ for x in w[3].split(";")):
+                    return False            # a sequence shorter than the span is refused before any mask is read
+                return any(m != "n" and len(m) < need for m in w[4].split(";"))
+            if c_ in ("match", "matchq", "matchsim") and w[3] != "-":
+                if len(_parse_nats(w[2])) < span_:
+                    return False
+                return len(w[3]) < need
+        return False
+
     def one(op):
         w = op.split()
         c = w[0]
+        if unsafe(w):
+            return "UNSAFE-OP-NOT-RUN"
         if c == "alpheq":
             def mk(n, k, sp):
                 base = bseq.LetterAlphabet("ABCDEFGHIJKLMNOPQRSTUVWXYZ"[:int(n)])
